@@ -50,7 +50,8 @@ XYp(x, y) == <<[x |-> x, y |-> y]>>
 SignEl(id, av) == [id |-> id, av |-> av]
 Sign(id, els, pos, virt, first) == [id |-> id, els |-> els, pos |-> pos, virt |-> virt, first |-> first]
 Cyc(c, d) == [c |-> c, d |-> d]
-Light(id, cyc, off, pos, dir, act) == [id |-> id, cyc |-> cyc, off |-> off, pos |-> pos, dir |-> dir, act |-> act]
+LightG(id, cyc, off, pos, dir, act, cycNone) == [id |-> id, cyc |-> cyc, off |-> off, pos |-> pos, dir |-> dir, act |-> act, g |-> [cycNone |-> cycNone]]
+Light(id, cyc, off, pos, dir, act) == LightG(id, cyc, off, pos, dir, act, 0)
 Inc(id, lan, r, s, l, lo) == [id |-> id, lan |-> lan, r |-> r, s |-> s, l |-> l, lo |-> lo]
 Inter(id, incs, cross, cN) == [id |-> id, incs |-> incs, cross |-> cross, g |-> [crossNone |-> cN]]
 Goal(st, lan) == [st |-> st, lan |-> lan]
@@ -247,6 +248,8 @@ LightPool ==
   {Light(31, cy, off, XYp("one", "ordinary"), "ALL", 1) : cy \in Cycles, off \in {0, 3}}
   \cup {Light(31, <<Cyc("RED", 2), Cyc("GREEN", 3)>>, off, XYp("ordinary", "neg"), dir, act) :
           off \in {0, 3}, dir \in NameSet(LightDirT), act \in {0, 1}}
+  \* protobuf only: an EMPTY cycle (active set through the setter) and no cycle at all x direction x active
+  \cup {LightG(31, <<>>, 0, XYp("ordinary", "neg"), dir, act, cn) : dir \in NameSet(LightDirT), act \in {0, 1}, cn \in {0, 1}}
 IdSubsets == {<<>>, <<2>>, <<2, 3>>}
 Incs1 == {Inc(45, lan, r, s, l, 0) : lan \in {<<1>>, <<1, 2>>}, r \in IdSubsets, s \in IdSubsets, l \in {<<>>, <<3>>}}
 InterPool ==
@@ -476,7 +479,7 @@ LawImplConforms == IsSeed \/
 LawReuse == IsSeed \/ cs.reuse = <<>> \/
   LET e == EditOf(D, cs.reuse) IN
   /\ WellFormed(e) /\ (XmlExpressible(D) /\ XmlExpressible(e) => ContractDocValid(e))
-  /\ (cs.reuse[1].edit \notin {"translate", "none"} => Leaves(e) # Leaves(D))   \* the edit is visible
+  /\ (cs.reuse[1].edit \notin {"translate", "none", "retry"} => Leaves(e) # Leaves(D))   \* the edit is visible
 
 (* contract and schema are mutually consistent: the document the contract demands is valid *)
 LawSchema == IsSeed \/ (XmlExpressible(D) => ContractDocValid(D))
